@@ -23,18 +23,18 @@ ASSUMPTIONS = ['refpgp.sig (independent 5.2.4 implementation, self-tested on 62 
 
 SIG_MUTS = ['type', 'pkalg', 'halg', 'hashed-bit', 'hashed-len', 'sub-delete', 'sub-dup', 'sub-swap', 'sub-move-unhashed',
             'sub-value', 'sub-add', 'sub-unknown-bit', 'mpi-bit', 'mpi-plus1', 'mpi-zero', 'mpi-swap', 'mpi-trunc', 'mpi-high', 'version']
-SUBJ_MUTS = ['none-with-subject', 'ua-reencode', 'doc-bit', 'doc-insert', 'doc-delete', 'doc-swap', 'text-eol', 'uid-char', 'uid-append', 'uid-as-ua', 'key-time', 'key-material',
+SUBJ_MUTS = ['none-with-subject', 'ua-reencode', 'doc-as-message', 'key-as-uid', 'doc-bit', 'doc-insert', 'doc-delete', 'doc-swap', 'text-eol', 'uid-char', 'uid-append', 'uid-as-ua', 'key-time', 'key-material',
              'key-alg', 'key-other', 'subkey-other', 'subkey-swap-roles', 'subkey-material']
 KEY_MUTS = ['key-otherkey-reissue', 'key-bit-reissue', 'key-primary-for-subkey', 'key-encsubkey-reissue']
 ALL_MUTS = SIG_MUTS + SUBJ_MUTS + KEY_MUTS
 _KEYSUBJ = ['key-time', 'key-material', 'key-alg', 'key-other']
 APPLICABLE = {
-    'doc': SIG_MUTS + ['doc-bit', 'doc-insert', 'doc-delete', 'doc-swap'] + KEY_MUTS,
-    'text': SIG_MUTS + ['doc-bit', 'doc-insert', 'doc-delete', 'doc-swap', 'text-eol', 'text-eol'] + KEY_MUTS,
+    'doc': SIG_MUTS + ['doc-bit', 'doc-insert', 'doc-delete', 'doc-swap', 'doc-as-message'] + KEY_MUTS,
+    'text': SIG_MUTS + ['doc-bit', 'doc-insert', 'doc-delete', 'doc-swap', 'text-eol', 'text-eol', 'doc-as-message'] + KEY_MUTS,
     'none': SIG_MUTS + KEY_MUTS + ['none-with-subject', 'none-with-subject'],
     'cert': SIG_MUTS + ['uid-char', 'uid-append', 'uid-as-ua', 'ua-reencode'] + _KEYSUBJ + KEY_MUTS,
-    'key': SIG_MUTS + _KEYSUBJ + KEY_MUTS,
-    'subkey': SIG_MUTS + _KEYSUBJ + ['subkey-other', 'subkey-swap-roles', 'subkey-material'] + KEY_MUTS,
+    'key': SIG_MUTS + _KEYSUBJ + ['key-as-uid'] + KEY_MUTS,
+    'subkey': SIG_MUTS + _KEYSUBJ + ['subkey-other', 'subkey-swap-roles', 'subkey-material', 'key-as-uid'] + KEY_MUTS,
 }
 LABEL_KIND = {'doc': 'doc', 'doc-msg': 'doc', 'msg-u': 'doc', 'msg-t': 'doc', 'text': 'text', 'text-cleartext': 'text', 'standalone': 'none', 'timestamp': 'none',
               'cert-10': 'cert', 'cert-11': 'cert', 'cert-12': 'cert', 'cert-13': 'cert', 'cert-ua': 'cert', 'cert-self': 'cert',
@@ -204,6 +204,20 @@ def mutate(t, mut, a, b):
             m.kind = 'doc'
             m.doc = [b'I owe Mallory 1000 EUR', b'', b'\x00', b'any other document\n' * 3][a % 4] if a % 4 != 1 else b'x'
             return m, mut, None
+        if mut == 'doc-as-message':
+            # another document, handed over as a message object together with the detached signature
+            if t.kind not in ('doc', 'text'):
+                return None
+            m.doc = [b'pay 1000 EUR to Mallory', b'another text\n', t.doc + b' ']['%d' % a < '5' and a % 3 or a % 3] if False else [b'pay 1000 EUR to Mallory', b'another text\n', bytes(t.doc) + b'.'][a % 3]
+            m.as_message = ['cleartext', 'literal'][b % 2]
+            return m, 'doc-as-message/' + m.as_message, None
+        if mut == 'key-as-uid':
+            # a user id whose octets are those of the key packet body, presented in place of the key
+            if t.kind not in ('key', 'subkey'):
+                return None
+            m.kind, m.uid_kind = 'cert', 'uid'
+            m.uid_data = bytes(t.tprimary if t.kind == 'key' else t.tsubkey)
+            return m, 'key-as-uid', None
         if mut == 'ua-reencode':
             # the same photo in another encoding of the attribute packet: other length form, other reserved octets, other header length
             if t.kind != 'cert' or t.uid_kind != 'ua':
@@ -410,13 +424,13 @@ def _inside_carrier(t, m, where):
             if m.doc == t.doc and msg.message != text:
                 return None     # cleartext framing itself altered the text: that is C11's subject
             v = t.pg_verifier().verify(msg)
-        elif t.kind == 'cert':
+        elif m.kind == 'cert':
             blob = wire.build_packet(6, m.tprimary) + wire.build_packet(13 if m.uid_kind == 'uid' else 17, m.uid_data) + wire.build_packet(2, m.sig)
             v = t.pg_verifier().verify(keypool.pgpy_key(blob))
-        elif t.kind == 'key':
+        elif m.kind == 'key':
             blob = wire.build_packet(6, m.tprimary) + wire.build_packet(2, m.sig)
             v = t.pg_verifier().verify(keypool.pgpy_key(blob))
-        elif t.kind == 'subkey' and t.label != 'pkbind-19':
+        elif m.kind == 'subkey' and t.label != 'pkbind-19':
             blob = wire.build_packet(6, m.tprimary) + wire.build_packet(14, m.tsubkey) + wire.build_packet(2, m.sig)
             v = t.pg_verifier().verify(keypool.pgpy_key(blob))
         else:
@@ -535,6 +549,12 @@ def matrix(arg):
                     case = {'kid': fam, 'halg': sigkit.HASH_IDS[i % 3], 'label': label, 'subkey': None, 'mut': mut,
                             'a': 7 * i + 3 + v, 'b': 13 * i + 1 + v * 5, 'doc': b'The quick brown fox\njumps over\r\nthe lazy dog\n'.hex(), 'carrier': carrier}
                     evaluate(case, rec)
+    if part == 0:
+        # a signature over the EMPTY document, presented with some other document wrapped in a message object
+        for label in ('doc', 'text'):
+            for a in range(3):
+                for b in range(2):
+                    evaluate({'kid': fam, 'halg': 8, 'label': label, 'subkey': None, 'mut': 'doc-as-message', 'a': a, 'b': b, 'doc': '', 'carrier': 'detached'}, rec)
     return rec
 
 
